@@ -308,3 +308,104 @@ func runParkedNode(seed uint64) string {
 	}
 	return ""
 }
+
+// runSetCollRace: a snapshot and a handle that REPLACED the collection's handle (SetCollection on the existing name) share
+// one version record; readers hammer both at once (every read pins and unpins that record).  Afterwards every key is still
+// readable through both, the record's reference count is what the open handles account for (a following mutation and the
+// snapshot's Close proceed), and nothing panicked or hung.
+func runSetCollRace(seed uint64, millis int) string {
+	r := NewRng(seed)
+	s, err := gkvlite.NewStore(nil)
+	if err != nil {
+		return "open: " + err.Error()
+	}
+	c := s.SetCollection("x", nil)
+	n := 20 + r.Intn(60)
+	key := func(i int) []byte { return []byte(fmt.Sprintf("k%03d", i)) }
+	for i := 0; i < n; i++ {
+		if err := c.SetItem(&gkvlite.Item{Key: key(i), Val: key(i), Priority: int32(r.U64() & 0x7fffffff)}); err != nil {
+			return "set: " + err.Error()
+		}
+	}
+	snap := s.Snapshot()
+	cs := snap.GetCollection("x")
+	c2 := s.SetCollection("x", nil) // replaces the handle, shares the version
+	stop := make(chan struct{})
+	errc := make(chan string, 16)
+	done := make(chan struct{}, 16)
+	reader := func(col *gkvlite.Collection, id int) {
+		defer func() {
+			if p := recover(); p != nil {
+				select {
+				case errc <- fmt.Sprintf("reader %d panicked: %v", id, p):
+				default:
+				}
+			}
+			done <- struct{}{}
+		}()
+		rr := NewRng(seed + uint64(id)*977)
+		for {
+			select {
+			case <-stop:
+				return
+			default:
+			}
+			k := rr.Intn(n)
+			v, err := col.Get(key(k))
+			if err != nil || !bytes.Equal(v, key(k)) {
+				select {
+				case errc <- fmt.Sprintf("reader %d: Get(%s) = %q, %v", id, key(k), v, err):
+				default:
+				}
+				return
+			}
+			if rr.Chance(1, 8) {
+				cnt := 0
+				col.VisitItemsAscend(nil, false, func(i *gkvlite.Item) bool { cnt++; return cnt < 10 })
+			}
+		}
+	}
+	const per = 4
+	for i := 0; i < per; i++ {
+		go reader(cs, i)
+		go reader(c2, per+i)
+	}
+	time.Sleep(time.Duration(millis) * time.Millisecond)
+	close(stop)
+	for i := 0; i < 2*per; i++ {
+		select {
+		case <-done:
+		case <-time.After(20 * time.Second):
+			return "a reader did not stop within 20 s (blocked on a lock)"
+		}
+	}
+	select {
+	case m := <-errc:
+		return m
+	default:
+	}
+	// afterwards: a mutation through the replacement handle, the snapshot still shows the old contents, close it, read on
+	if err := c2.SetItem(&gkvlite.Item{Key: []byte("new"), Val: []byte("new"), Priority: 1}); err != nil {
+		return "set after the readers: " + err.Error()
+	}
+	for i := 0; i < n; i++ {
+		if v, err := cs.Get(key(i)); err != nil || !bytes.Equal(v, key(i)) {
+			return fmt.Sprintf("snapshot after the readers: Get(%s) = %q, %v", key(i), v, err)
+		}
+	}
+	if v, _ := cs.Get([]byte("new")); v != nil {
+		return "the snapshot shows a key set after it was taken"
+	}
+	snap.Close()
+	for i := 0; i < n; i++ {
+		if err := c2.SetItem(&gkvlite.Item{Key: []byte(fmt.Sprintf("m%03d", i)), Val: []byte("v"), Priority: int32(i)}); err != nil {
+			return "set after closing the snapshot: " + err.Error()
+		}
+	}
+	for i := 0; i < n; i++ {
+		if v, err := c2.Get(key(i)); err != nil || !bytes.Equal(v, key(i)) {
+			return fmt.Sprintf("after closing the snapshot and %d more inserts: Get(%s) = %q, %v", n, key(i), v, err)
+		}
+	}
+	return ""
+}
